@@ -47,6 +47,10 @@ pub struct BEntry {
     /// name recorded in the central header when it differs from the local one
     #[serde(default)]
     pub central_name: Option<Hex>,
+    /// bytes appended after the end of the compressed stream (inside the encrypted payload, if any):
+    /// decoders stop at their end-of-stream marker, the declared compressed size covers the padding
+    #[serde(default)]
+    pub trailing_pad: u32,
 }
 
 impl Default for BEntry {
@@ -74,6 +78,7 @@ impl Default for BEntry {
             gap_before: 0,
             crc_lie: None,
             central_name: None,
+            trailing_pad: 0,
         }
     }
 }
@@ -144,6 +149,10 @@ pub fn build(l: &Layout) -> Built {
             (8, Some(b)) => deflate_stored_blocks(&plain, b as usize),
             (m, _) => encode(m, e.level, &plain),
         };
+        let mut compressed = compressed;
+        if e.trailing_pad > 0 && matches!(e.method, 8 | 12) {
+            compressed.extend_from_slice(&junk(ei as u64 + 4040, e.trailing_pad as usize));
+        }
         let mut recorded_method = e.method;
         let mut flags: u16 = if e.utf8 { 0x800 } else { 0 };
         let mut aes_extra: Vec<u8> = vec![];
@@ -213,7 +222,9 @@ pub fn build(l: &Layout) -> Built {
         if e.z64_first {
             lex.extend_from_slice(&z64l);
         }
-        lex.extend_from_slice(&e.extra_local.0);
+        // the 16-bit length field bounds the whole local extra field: an over-long user part is dropped
+        let user_local: &[u8] = if e.extra_local.0.len() + z64l.len() + aes_extra.len() > 65535 { &[] } else { &e.extra_local.0 };
+        lex.extend_from_slice(user_local);
         lex.extend_from_slice(&aes_extra);
         if !e.z64_first {
             lex.extend_from_slice(&z64l);
@@ -286,7 +297,8 @@ pub fn build(l: &Layout) -> Built {
         if e.z64_first {
             cex.extend_from_slice(&zc);
         }
-        cex.extend_from_slice(&e.extra_central.0);
+        let user_central: &[u8] = if e.extra_central.0.len() + zc.len() + aes_extra.len() > 65535 { &[] } else { &e.extra_central.0 };
+        cex.extend_from_slice(user_central);
         cex.extend_from_slice(&aes_extra);
         if !e.z64_first {
             cex.extend_from_slice(&zc);
